@@ -132,7 +132,8 @@ def make(case, decorated):
     kind = case['kind']
     # 'wraps': the generated callable is a (*args, **kwargs) pass-through carrying __wrapped__ = a callable of another kind
     # (what functools.wraps leaves behind, e.g. an async adapter around a synchronous function): its own kind decides
-    params = '(*args, **kwargs)' if case.get('wraps') else '()'
+    carrier = case.get('carrier') if not case.get('wraps') else None
+    params = '(*args, **kwargs)' if case.get('wraps') else '(self)' if carrier else '()'
     head = {'gen': 'def f' + params, 'agen': 'async def f' + params, 'coro': 'async def f' + params}[kind]
     ann = case['ann']
     ns = dict(ENV)
@@ -160,6 +161,12 @@ def make(case, decorated):
         f = functools.wraps(bases[case['wraps']])(f)
         f.__annotations__ = ann          # the adapter keeps its own return annotation
         src = '# functools.wraps(<%s function>) applied to:\n%s' % (case['wraps'], src)
+    if carrier:
+        # the same function as a bound method (beartype(obj.f)) or as the __call__ of a callable object (beartype(obj))
+        obj = type('Carrier', (), {'f' if carrier == 'bound' else '__call__': f})()
+        f = obj.f if carrier == 'bound' else obj
+        src = '# %s of an instance of a class whose %s is:\n%s' % (
+            'bound method' if carrier == 'bound' else 'callable object', 'f' if carrier == 'bound' else '__call__', src)
     return (beartype(f) if decorated else f), src
 
 
@@ -288,7 +295,7 @@ def _case(draw, tier):
         ann = draw(st.sampled_from({'gen': ['Generator', 'none', 'Iterator'], 'agen': ['AsyncGenerator', 'none', 'AsyncIterator'],
                                     'coro': ['int', 'none', 'Any']}[kind]))
         ops = [['next'], ['throw', exc]] + draw(st.lists(OPS, max_size=3))
-        return {'kind': kind, 'body': body, 'ann': ann, 'ops': ops, 'wraps': None}
+        return {'kind': kind, 'body': body, 'ann': ann, 'ops': ops, 'wraps': None, 'carrier': draw(st.sampled_from([None, None, 'bound']))}
     body = draw(stmts(draw(st.sampled_from([0, 1, 1, 2])), kind))
     ann = draw(st.sampled_from({'gen': ['none', 'Generator', 'Generator', 'Iterator', 'Iterable'],
                                 'agen': ['none', 'AsyncGenerator', 'AsyncGenerator', 'AsyncIterator'],
@@ -299,7 +306,8 @@ def _case(draw, tier):
     ops_s = OPS if not caught else st.one_of(OPS, OPS, st.sampled_from(caught).map(lambda e: ['throw', e]))
     ops = draw(st.lists(ops_s, min_size=1, max_size=8))
     wraps = draw(st.sampled_from([None, None, None, 'sync', 'coro', 'gen', 'agen']))
-    return {'kind': kind, 'body': body, 'ann': ann, 'ops': ops, 'wraps': wraps}
+    carrier = draw(st.sampled_from([None, None, None, 'bound'])) if wraps is None else None
+    return {'kind': kind, 'body': body, 'ann': ann, 'ops': ops, 'wraps': wraps, 'carrier': carrier}
 
 
 def strategy(tier):
